@@ -115,6 +115,8 @@ type Op struct {
 	// and the UnprocessedItems map OF THE RESPONSE (the same object) is sent as the RequestItems of a second call - the retry
 	// loop of the SDK documentation; the outcome is the second call's
 	ResendUnprocessed bool `json:"resendunprocessed,omitempty"`
+	// Token (TransactWriteItems): the ClientRequestToken of the call
+	Token string `json:"token,omitempty"`
 	// SharePtrs (SDK v1): equal values of one request map are ONE *AttributeValue used at several places
 	SharePtrs bool `json:"shareptrs,omitempty"`
 	RetCap string `json:"retcap,omitempty"`
